@@ -34,6 +34,7 @@ NAMES = [
     "canary_imported.func", "canary_imported.Obj", "canary_imported.Plain", "canary_imported.VALUE", "canary_imported.LIST",
     "canary_imported.ListSub", "canary_imported.INSTANCE", "canary_imported.Obj.method", "canary_imported.WithProperty.value",
     "canary_imported", "canary_imported.missing",
+    "canary_imported.GENLIKE", "canary_imported.ITERLIKE", "canary_imported.CALLABLE", "canary_imported.CONTEXT", "canary_imported.NATIVE_GEN",
     "canary_unimported.func", "canary_unimported", "canary_unimported.VALUE",
     "canary_pkg.sub.attr", "canary_pkg.sub.func", "canary_pkg.sub", "canary_pkg",
     "os.system", "os.getcwd", "os.path.join", "os.environ", "os", "os.path", "subprocess.Popen", "subprocess.check_output",
@@ -53,10 +54,11 @@ WATCH = {n for n in NAMES if n.startswith("canary_imported.")} | {
 # names that matter most: resolvable only by importing, or recording what is done to them
 HOT_NAMES = ["canary_unimported.func", "canary_unimported.VALUE", "canary_unimported", "canary_pkg.sub.attr", "canary_pkg.sub.func",
              "canary_pkg.sub", "canary_pkg", "canary_imported.func", "canary_imported.Obj", "canary_imported.Plain",
-             "canary_imported.ListSub", "os.system", "antigravity.fly", "this.s"]
+             "canary_imported.ListSub", "os.system", "antigravity.fly", "this.s", "canary_imported.GENLIKE", "canary_imported.ITERLIKE",
+             "canary_imported.CALLABLE"]
 
 TAG_CH = set("ABCDEFGHIJKLMNOPQRSTUVWXYZabcdefghijklmnopqrstuvwxyz0123456789-;/?:@&=+$_.~*'()")
-SCALAR_TEXTS = ["", "a", "1", "2.5", "true", "~", "2001-01-01", "x y", "k", "v", "0x1F", "[1]", "os.system", "1+2j", "abc", "app", "app3", "app-key"]
+SCALAR_TEXTS = ["", "a", "1", "2.5", "true", "~", "2001-01-01", "x y", "k", "v", "0x1F", "[1]", "os.system", "1+2j", "abc", "app", "app3", "app-key", "appd"]
 
 
 def uri_escape(s):
@@ -216,7 +218,8 @@ def tagrefs(families, names=None, weight_foreign=3):
     py = st.tuples(st.just("py"), forms, fams, names)
     pyval = st.tuples(st.just("py"), forms, st.sampled_from(VALUE_TAGS), st.just(""))
     other = st.sampled_from([("local", "!foo"), ("local", "!python/object:os.system"), ("local", "!app-c"), ("local", "!app-m/x"),
-                             ("local", "!app-c2"), ("local", "!app-m2/x"), ("local", "!app-c3"), ("local", "!app-m3/x"), ("uri", "tag:example.com,2000:x"),
+                             ("local", "!app-c2"), ("local", "!app-m2/x"), ("local", "!app-c3"), ("local", "!app-m3/x"), ("local", "!app-d"), ("local", "!app-dm/x"),
+                             ("uri", "tag:example.com,2000:x"),
                              ("uri", "tag:yaml.org,2002:python"), ("uri", "tag:yaml.org,2002:python/"),
                              ("uri", "tag:yaml.org,2002:python/object"), ("uri", "tag:yaml.org,2002:yaml"), ("bang",),
                              ("uri", "tag:yaml.org,2002:Python/name:os.system"), ("uri", "tag:yaml.org,2002:str2")])
@@ -406,6 +409,7 @@ class Monitor:
     def __enter__(self):
         import canary_imported
         self.canary = canary_imported
+        canary_imported.reset()
         del canary_imported.CALLS[:]
         self.modules_before = set(sys.modules)
         del _state["events"][:]
